@@ -268,9 +268,11 @@ func (pkg *pkg) Generate() (bool, error) {
 func (pg *program) Generate() error {
 	pkgInfos := pg.program.InitialPackages()
 
-	// sort.Slice(pkgInfos, func(i, j int) bool {
-	// 	return pkgInfos[i].String() < pkgInfos[j].String()
-	// })
+	// The loader returns the packages in the order of a map iteration: process them in a fixed order,
+	// so that what is written before a failing package does not differ from run to run.
+	sort.Slice(pkgInfos, func(i, j int) bool {
+		return pkgInfos[i].Pkg.Path() < pkgInfos[j].Pkg.Path()
+	})
 	for i := range pkgInfos {
 		if err := pg.generatePackage(pkgInfos[i]); err != nil {
 			return err
